@@ -314,6 +314,15 @@ func (f *fetcher) getFromCacheOrFetch(req *http.Request, key cache.CacheKey, cli
 func (f *fetcher) dedupFetch(req *http.Request, key cache.CacheKey, clientHd *headers.HeaderDirectives) (fetched fetchResult, err error) {
 	slog.Debug("Attempting to dedup fetch...")
 
+	if req.ContentLength != 0 || len(req.TransferEncoding) > 0 {
+		// A request that carries content is relayed once, as it is: the content is part of the request
+		// and can be sent upstream only once, so neither the shared fetch nor any of the fallbacks
+		// that send a request a second time (non-cacheable answer, cache trouble, 416 retry) apply.
+		slog.Debug("Request carries content, relaying it directly...")
+		metrics.Global.Requests.NonCoalescedRequests.Increment()
+		return f.fetchDirectlyFromUpstream(req)
+	}
+
 	shouldCoalesce := !clientHd.Range.IsPresent() && req.Method == http.MethodGet
 	if !shouldCoalesce {
 		// These requests also aren't cacheable, so they just go straight to upstream..
